@@ -948,3 +948,261 @@ Proof.
   - simpl in L. destruct (D n t0 I0 L) as (_ & _ & D0). congruence.
   - exact (D n t0 I0 L).
 Qed.
+
+(* ---------------------------------------------------------------- Tinv = core + covered + Cinv *)
+Definition impjob_t (st : state) : Prop := forall n r, jimp st = Some (mkImp n (Some r)) -> resp_t st r.
+
+Definition Tcore (st : state) : Prop :=
+  sorted (tags st) /\ ranked (tags st) /\ deadok (tags st) /\ tags_bounded (next st) (tags st) /\
+  bounded (next st) (m_upd st) /\ bounded (next st) (m_rst st) /\ bounded (next st) (m_add st) /\
+  closed (next st) (tags st) /\ tagjob_ok st /\ convs_ok st /\ mergejob_ok st /\ impjob_t st.
+
+Lemma Tinv_split st : Tinv st <-> Tcore st /\ covered st /\ Cinv st.
+Proof. unfold Tinv, Tcore, impjob_t. tauto. Qed.
+
+(* merge_offset finds an index that has a non-empty index behind it *)
+Lemma nrecords_acc l : forall a, fold_left (fun a x => a + popcount x) l a = a + fold_left (fun a x => a + popcount x) l 0.
+Proof.
+  induction l as [|x l IH]; simpl; intros a; [lia|]. rewrite IH, (IH (popcount x)). lia.
+Qed.
+Lemma nrecords_cons x l : nrecords (x :: l) = popcount x + nrecords l.
+Proof. unfold nrecords. simpl. rewrite nrecords_acc. lia. Qed.
+
+Lemma merge_offset_len unm l : forall i n k, n <= nrecords l -> merge_offset i unm n l = Some k ->
+  (i <= k)%nat /\ (k - i + 2 <= length l)%nat.
+Proof.
+  induction l as [|x r IH]; simpl; intros i n k Hn H; [discriminate|].
+  rewrite nrecords_cons in Hn.
+  destruct (Nat.leb unm i && (popcount x <? n - popcount x)) eqn:C.
+  - inversion H; subst. apply andb_true_iff in C. destruct C as [_ C]. apply N.ltb_lt in C.
+    destruct r as [|y r']; [unfold nrecords in Hn; simpl in Hn; lia|simpl; lia].
+  - assert (n - popcount x <= nrecords r) as Hn' by lia.
+    destruct (IH (S i) (n - popcount x) k Hn' H) as (A & B). simpl. lia.
+Qed.
+
+Lemma tcore_start_merge st : Tcore st -> Tcore (start_merge st).
+Proof.
+  intros H. pose proof H as (A1 & A2 & A3 & A4 & A5 & A6 & A7 & A8 & A9 & A10 & A11 & A12). unfold start_merge.
+  destruct (merge_eligible st) as [off|] eqn:E; [|exact H].
+  split; [exact A1|split; [exact A2|split; [exact A3|split; [exact A4|split; [exact A5|split; [exact A6|split; [exact A7|
+    split; [exact A8|split; [exact A9|split; [exact A10|split; [|exact A12]]]]]]]]]]].
+  intros j Hj. simpl in Hj. inversion Hj; subst; clear Hj. simpl.
+  unfold merge_eligible in E. destruct (jmerge st); [discriminate|]. destruct (jtag st); [discriminate|]. destruct (jconv st); [discriminate|].
+  destruct (all_certain (tags st)); [|discriminate].
+  destruct (merge_offset_len (unmerge st) (idx st) O (nrecords (idx st)) off (N.le_refl _) E) as (_ & L).
+  rewrite skipn_length. split; [lia|split; [lia|discriminate]].
+Qed.
+
+Lemma NoDup_filter {A} (f : A -> bool) l : NoDup l -> NoDup (filter f l).
+Proof.
+  induction 1; simpl; [constructor|]. destruct (f x); [constructor; [|assumption]|assumption].
+  intros I. apply filter_In in I. tauto.
+Qed.
+
+Lemma tcore_start_converter st : Tcore st -> Tcore (start_converter st).
+Proof.
+  intros H. pose proof H as (A1 & A2 & A3 & A4 & A5 & A6 & A7 & A8 & A9 & A10 & A11 & A12). unfold start_converter.
+  destruct (jconv st) eqn:J; [exact H|].
+  destruct (filter (fun c => negb (is0 (toconv st c))) (convs st)) as [|c0 l] eqn:F; [exact H|].
+  split; [exact A1|split; [exact A2|split; [exact A3|split; [exact A4|split; [exact A5|split; [exact A6|split; [exact A7|
+    split; [exact A8|split; [exact A9|split; [|split; [exact A11|exact A12]]]]]]]]]]].
+  destruct A10 as (ND & _). split; [exact ND|]. intros j Hj. simpl in Hj. inversion Hj; subst; clear Hj. simpl.
+  split; [|discriminate]. rewrite map_map. simpl. rewrite map_id. rewrite <- F. apply NoDup_filter. exact ND.
+Qed.
+
+Lemma lookupN_bounded nx x (l : list (N * N)) : (forall p, In p l -> bounded nx (snd p)) -> bounded nx (lookupN x l).
+Proof.
+  intros H. unfold lookupN. destruct (find (fun p => fst p =? x) l) eqn:F; [|apply bounded_0].
+  apply find_some in F. apply H. exact (proj1 F).
+Qed.
+
+Lemma tm_bounded nx ts x : tags_bounded nx ts -> bounded nx (tm x ts).
+Proof.
+  intros B. unfold tm. destruct (tget x ts) as [t|] eqn:T; [|apply bounded_0].
+  destruct (tget_In _ _ _ T) as (I & _). exact (proj2 (B x t I)).
+Qed.
+
+Lemma tcore_start_tagging p st : Tcore st -> Tcore (start_tagging p st).
+Proof.
+  intros H. pose proof H as (A1 & A2 & A3 & A4 & A5 & A6 & A7 & A8 & A9 & A10 & A11 & A12).
+  destruct (jtag st) eqn:J; [unfold start_tagging; rewrite J; exact H|].
+  destruct (start_tagging_cases p st J) as [(_ & ->)|(n & t & Tn & EL & ->)]; [exact H|].
+  split; [exact A1|split; [exact A2|split; [exact A3|split; [exact A4|split; [apply bounded_0|split; [apply bounded_0|split; [apply bounded_0|
+    split; [exact A8|split; [|split; [exact A10|split; [exact A11|exact A12]]]]]]]]]]].
+  intros j Hj. simpl in Hj. inversion Hj; subst; clear Hj. simpl.
+  destruct (tget_In _ _ _ Tn) as (In_n & Ln). destruct (A4 n t In_n) as (BU & BM).
+  destruct (eligible_spec _ _ EL) as (t' & Tn' & RZ). rewrite Tn in Tn'. inversion Tn'; subst t'.
+  split; [exact BM|split; [exact BU|split; [|split; [|split; [|discriminate]]]]].
+  - intros x. apply lookupN_bounded. intros pr I. apply in_map_iff in I. destruct I as (r & <- & _). simpl. apply tm_bounded. exact A4.
+  - intros _. exists t. unfold eligible in EL. rewrite Tn in EL. apply andb_true_iff in EL. destruct EL as [EU _].
+    apply negb_true_iff in EU. apply is0_false in EU. destruct (ne0_mem_exists _ EU) as (i & Hi). exists i. split; [exact Tn|exact Hi].
+  - intros _ x Hx. apply RZ. exact Hx.
+Qed.
+
+Lemma tcore_starts p st : Tcore st -> Tcore (start_merge (start_converter (start_tagging p st))).
+Proof. intros. apply tcore_start_merge, tcore_start_converter, tcore_start_tagging. assumption. Qed.
+
+(* ---------------------------------------------------------------- preservation of the core invariant: bodies, merge *)
+Lemma tcore_bimp st p r n : Tcore st -> jimp st = Some (mkImp n None) -> resp_t st r -> Tcore (step repaired p (ABodyImport r) st).
+Proof.
+  intros H J RT. simpl. rewrite J. simpl. pose proof H as (A1 & A2 & A3 & A4 & A5 & A6 & A7 & A8 & A9 & A10 & A11 & A12).
+  split; [exact A1|split; [exact A2|split; [exact A3|split; [exact A4|split; [exact A5|split; [exact A6|split; [exact A7|
+    split; [exact A8|split; [exact A9|split; [exact A10|split; [exact A11|]]]]]]]]]]].
+  intros n0 r0 E. simpl in E. inversion E; subst. exact RT.
+Qed.
+
+Lemma tcore_btag st p tb j : Tcore st -> jtag st = Some j -> tj_res j = None -> Tcore (step repaired p (ABodyTag tb) st).
+Proof.
+  intros H J R. destruct j as [n d m u c s h res]. simpl in R. subst res. simpl. rewrite J.
+  pose proof H as (A1 & A2 & A3 & A4 & A5 & A6 & A7 & A8 & A9 & A10 & A11 & A12).
+  split; [exact A1|split; [exact A2|split; [exact A3|split; [exact A4|split; [exact A5|split; [exact A6|split; [exact A7|
+    split; [exact A8|split; [|split; [exact A10|split; [exact A11|exact A12]]]]]]]]]]].
+  intros j' Hj. simpl in Hj. inversion Hj; subst; clear Hj. simpl.
+  destruct (A9 _ J) as (B1 & B2 & B3 & B4 & B5 & _). simpl in *.
+  split; [exact B1|split; [exact B2|split; [exact B3|split; [exact B4|split; [exact B5|]]]]].
+  intros res E. inversion E; subst. intros i Hi. rewrite mem_union, mem_diff, mem_inter in Hi.
+  apply orb_true_iff in Hi. destruct Hi as [Hi|Hi]; apply andb_true_iff in Hi; destruct Hi as [Hi _]; auto.
+Qed.
+
+Lemma tcore_bmerge st p j : Tcore st -> jmerge st = Some j -> mj_res j = None -> Tcore (step repaired p ABodyMerge st).
+Proof.
+  intros H J R. destruct j as [o sn res]. simpl in R. subst res. simpl. rewrite J.
+  pose proof H as (A1 & A2 & A3 & A4 & A5 & A6 & A7 & A8 & A9 & A10 & A11 & A12).
+  split; [exact A1|split; [exact A2|split; [exact A3|split; [exact A4|split; [exact A5|split; [exact A6|split; [exact A7|
+    split; [exact A8|split; [exact A9|split; [exact A10|split; [|exact A12]]]]]]]]]]].
+  intros j' Hj. simpl in Hj. inversion Hj; subst; clear Hj. simpl. destruct (A11 _ J) as (L1 & L2 & _). simpl in *.
+  split; [exact L1|split; [exact L2|]]. intros m E. inversion E; subst. reflexivity.
+Qed.
+
+Lemma tcore_bconv st p j : Tcore st -> jconv st = Some j -> cj_done j = false -> Tcore (step repaired p ABodyConvert st).
+Proof.
+  intros H J D. rewrite (bconv_eq st p j J D).
+  pose proof H as (A1 & A2 & A3 & A4 & A5 & A6 & A7 & A8 & A9 & A10 & A11 & A12).
+  split; [exact A1|split; [exact A2|split; [exact A3|split; [exact A4|split; [exact A5|split; [exact A6|split; [exact A7|
+    split; [exact A8|split; [exact A9|split; [|split; [exact A11|exact A12]]]]]]]]]]].
+  destruct A10 as (ND & NJ). split; [exact ND|]. intros j' Hj. simpl in Hj. inversion Hj; subst; clear Hj. simpl.
+  destruct (NJ j J) as (N1 & _). split.
+  - unfold bconv_sets. rewrite map_map. simpl. exact N1.
+  - intros _ cs I. unfold bconv_sets in I. apply in_map_iff in I. destruct I as (cs0 & <- & _). simpl.
+    intros i Hi. apply fold_guard2 in Hi. destruct Hi as [Hi|(Hi & _)]; [rewrite mem_0 in Hi; discriminate|exact Hi].
+Qed.
+
+Lemma tcore_cmerge st p j m : Tcore st -> jmerge st = Some j -> mj_res j = Some m -> Tcore (step repaired p (AComplete JMerge) st).
+Proof.
+  intros H J R. destruct j as [o sn res]. simpl in R. subst res. simpl. rewrite J. apply tcore_start_merge.
+  pose proof H as (A1 & A2 & A3 & A4 & A5 & A6 & A7 & A8 & A9 & A10 & A11 & A12).
+  split; [exact A1|split; [exact A2|split; [exact A3|split; [exact A4|split; [exact A5|split; [exact A6|split; [exact A7|
+    split; [exact A8|split; [exact A9|split; [exact A10|split; [|exact A12]]]]]]]]]]].
+  intros j' Hj. discriminate.
+Qed.
+
+(* ---------------------------------------------------------------- growth of Uncertain keeps what a tagging job looks at *)
+Lemma grow_tget nx a b n t : Forall2 (grow1 nx) a b -> tget n a = Some t ->
+  exists t', tget n b = Some t' /\ t_def t' = t_def t /\ t_m t' = t_m t /\ (forall i, i < nx -> mem i (t_u t) = true -> mem i (t_u t') = true).
+Proof.
+  intros G T. destruct (Forall2_tget (grow1 nx) a b n t G) as (t' & T' & ((_ & E2 & _) & E4 & E5)); [|exact T|].
+  - intros x y ((A1 & _ & A3) & _). split; assumption.
+  - exists t'. simpl in *. repeat split; auto.
+Qed.
+
+Lemma grow_tget_none nx a b n : Forall2 (grow1 nx) a b -> tget n a = None -> tget n b = None.
+Proof.
+  induction 1 as [|[k t] [k' t'] ra rb ((E1 & _ & E3) & _) HR IH]; simpl; [auto|]. simpl in *. subst k'. rewrite <- E3.
+  destruct (k =? n); [destruct (t_live t); [discriminate|auto]|exact IH].
+Qed.
+
+Lemma grow_tm nx a b x : Forall2 (grow1 nx) a b -> tm x b = tm x a.
+Proof.
+  intros G. unfold tm. destruct (tget x a) as [t|] eqn:T.
+  - destruct (grow_tget nx a b x t G T) as (t' & T' & _ & EM & _). rewrite T'. exact EM.
+  - rewrite (grow_tget_none nx a b x G T). reflexivity.
+Qed.
+
+Lemma u1_of_tm ts ts' snap d allS : (forall x, tm x ts' = tm x ts) -> u1_of ts' snap d allS = u1_of ts snap d allS.
+Proof.
+  intros H. unfold u1_of.
+  assert (existsb (fun r => negb (is0 (sxor (tm r ts') (lookupN r snap)))) (d_subt d) =
+          existsb (fun r => negb (is0 (sxor (tm r ts) (lookupN r snap)))) (d_subt d)) as ->.
+  { induction (d_subt d); simpl; [reflexivity|]. rewrite H, IHl. reflexivity. }
+  destruct (existsb _ _); [reflexivity|].
+  assert (forall acc, fold_left (fun a r => union a (sxor (tm r ts') (lookupN r snap))) (d_main d) acc =
+                      fold_left (fun a r => union a (sxor (tm r ts) (lookupN r snap))) (d_main d) acc) as G.
+  { induction (d_main d); simpl; intros acc; [reflexivity|]. rewrite H. apply IHl. }
+  apply G.
+Qed.
+
+Lemma clean_grow st st' j : Forall2 (grow1 (next st)) (tags st) (tags st') -> next st' = next st -> clean st' j = clean st j.
+Proof.
+  intros G N. unfold clean, all. rewrite N.
+  rewrite (u1_of_tm (tags st) (tags st')) by (intros x; apply (grow_tm (next st)); exact G).
+  destruct (tget (tj_name j) (tags st)) as [t|] eqn:T.
+  - destruct (grow_tget _ _ _ _ _ G T) as (t' & T' & ED & _). rewrite T', ED. reflexivity.
+  - rewrite (grow_tget_none _ _ _ _ G T). reflexivity.
+Qed.
+
+Lemma union_eq_0 a b : union a b = 0 -> a = 0 /\ b = 0.
+Proof. unfold union. apply N.lor_eq_0_iff. Qed.
+
+Lemma dirty_false st : dirty_of st = false -> m_upd st = 0 /\ m_rst st = 0 /\ m_add st = 0.
+Proof.
+  unfold dirty_of. intros H. apply negb_false_iff in H. apply andb_true_iff in H. destruct H as [H H3].
+  apply andb_true_iff in H. destruct H as [H1 H2]. repeat split; apply is0_true; assumption.
+Qed.
+
+Lemma sunion_bounded nx l : (forall cs, In cs l -> bounded nx (snd cs)) -> bounded nx (fold_left (fun a (cs : N * N) => union a (snd cs)) l 0).
+Proof.
+  intros H i Hi. apply sunion_mem in Hi. destruct Hi as [Hi|(cs & I & M)]; [rewrite mem_0 in Hi; discriminate|]. exact (H cs I i M).
+Qed.
+
+(* ---------------------------------------------------------------- Uncertain / masks grow, next id unchanged *)
+Lemma tcore_grow st st' :
+  Tcore st -> next st' = next st ->
+  Forall2 (grow1 (next st)) (tags st) (tags st') -> deadok (tags st') -> u_bounded (next st) (tags st') -> closed (next st) (tags st') ->
+  bounded (next st) (m_upd st') -> bounded (next st) (m_rst st') -> bounded (next st) (m_add st') ->
+  (dirty_of st' = false -> tags st' = tags st /\ dirty_of st = false) ->
+  jtag st' = jtag st -> convs st' = convs st -> (forall j, jconv st' = Some j -> jconv st = Some j) ->
+  idx st' = idx st -> jmerge st' = jmerge st -> jimp st' = jimp st ->
+  Tcore st'.
+Proof.
+  intros (A1 & A2 & A3 & A4 & A5 & A6 & A7 & A8 & A9 & A10 & A11 & A12) N G D UB CL BU BR BA DI JT CV JC IX JM JI.
+  unfold Tcore. rewrite N.
+  split; [eapply sorted_same; [eapply grow_same; exact G|exact A1]|
+  split; [eapply ranked_same; [eapply grow_same; exact G|exact A2]|
+  split; [exact D|split; [eapply tb_from; [apply N.le_refl|exact A4|exact G|exact UB]|
+  split; [exact BU|split; [exact BR|split; [exact BA|split; [exact CL|split; [|split; [|split]]]]]]]]]].
+  - intros j Hj. rewrite JT in Hj. destruct (A9 j Hj) as (B1 & B2 & B3 & B4 & B5 & B6). rewrite N.
+    split; [exact B1|split; [exact B2|split; [exact B3|split; [|split; [|exact B6]]]]].
+    + intros C. rewrite (clean_grow st st' j G N) in C. destruct (B4 C) as (ot & i & T & Hi).
+      destruct (grow_tget _ _ _ _ _ G T) as (ot' & T' & _ & _ & GU). exists ot', i. split; [exact T'|].
+      apply GU; [|exact Hi]. destruct (tget_In _ _ _ T) as (I & _). exact (proj1 (A4 _ _ I) i Hi).
+    + intros DF x Hx. destruct (DI DF) as (-> & DF0). apply B5; assumption.
+  - destruct A10 as (ND & NJ). unfold convs_ok. rewrite CV. split; [exact ND|]. intros j Hj. apply NJ. apply JC. exact Hj.
+  - unfold mergejob_ok. rewrite JM, IX. exact A11.
+  - unfold impjob_t, resp_t. rewrite JI, N. exact A12.
+Qed.
+
+Lemma tcore_cconv st p sets v nx : Tinv st -> jconv st = Some (mkCj sets v nx true) ->
+  Tcore (step repaired p (AComplete JConvert) st).
+Proof.
+  intros TI J. rewrite (cconv_eq st p sets v nx J). apply tcore_starts.
+  apply Tinv_split in TI. destruct TI as (TC & _ & (_ & CB & _)).
+  pose proof TC as (A1 & A2 & A3 & A4 & A5 & A6 & A7 & A8 & A9 & A10 & A11 & A12).
+  destruct (CB _ J) as (LN & _). simpl in LN. destruct A10 as (ND & NJ). destruct (NJ _ J) as (_ & SB). simpl in SB.
+  set (s := fold_left (fun a (cs : N * N) => union a (snd cs)) sets 0).
+  assert (bounded (next st) s) as BS.
+  { apply sunion_bounded. intros cs I. eapply bounded_mono; [exact LN|]. apply SB; [reflexivity|exact I]. }
+  assert (Forall2 (grow1 (next st)) (tags st) (tags (cconv_pre st sets))) as G.
+  { unfold cconv_pre. simpl. eapply grow_trans; [apply grow_data_tags|apply grow_inherit]. }
+  apply (tcore_grow st); try reflexivity; try assumption.
+  - unfold cconv_pre. simpl. apply deadok_inherit, deadok_data_tags. exact A3.
+  - unfold cconv_pre. simpl. apply u_bounded_inherit, ub_data_tags; [apply tags_u_bounded; exact A4|exact BS].
+  - unfold cconv_pre. simpl. apply closed_inherit.
+  - unfold cconv_pre. simpl. apply union_bounded; assumption.
+  - intros DF. destruct (dirty_false _ DF) as (U0 & R0 & M0). unfold cconv_pre in U0, R0, M0. simpl in U0, R0, M0.
+    apply union_eq_0 in U0. destruct U0 as (U0 & S0).
+    split.
+    + change (tags (cconv_pre st sets)) with (inherit (all st) (data_tags_uncertain s (tags st))).
+      replace s with 0 by (symmetry; exact S0). rewrite data_tags_zero. apply inherit_closed_id; [exact A8|apply tags_u_bounded; exact A4].
+    + unfold dirty_of. rewrite U0, R0, M0. reflexivity.
+  - intros j Hj. discriminate.
+Qed.
